@@ -90,6 +90,17 @@ def gen_case(rng):
         val = " = %s" % round(rng.uniform(0.5, 4), 2) if set(pf) & {"parameter", "constant"} else ""
         decls.append("  %sReal %s%s;" % ("".join(p + " " for p in pf), n, val))
         allnames.append(n)
+    if rng.random() < 0.25:
+        # two variables of the same kind whose names differ only by a trailing underscore
+        a_, b_ = rng.choice([("g", "g_"), ("k", "k_"), ("m", "m__")])
+        pf = rng.choice([[], [], ["parameter"], ["input"]])
+        for n in (a_, b_):
+            prefixes[n] = list(pf)
+            val = " = %s" % round(rng.uniform(0.5, 4), 2) if "parameter" in pf else ""
+            decls.append("  %sReal %s%s;" % ("".join(p_ + " " for p_ in pf), n, val))
+            allnames.append(n)
+            names.append(n)
+        tags.add("names:differ-only-by-trailing-underscore")
     if "ext:discrete-variable" in tags:
         decls.append("  discrete Real d9;")
         prefixes["d9"] = ["discrete"]
